@@ -25,6 +25,9 @@ class Obj:
         return "Obj(%d)" % self.tag
 
 
+NOT_IMPLEMENTED_TAG = 704
+
+
 class Tagged:
     """An exception object can be falsy (e.g. one that defines __len__): that must not matter to anybody."""
 
@@ -159,6 +162,8 @@ class World:
         """Decode a canonical value from the case description into a live Python value."""
         k = v[0]
         if k == "o":
+            if v[1] == NOT_IMPLEMENTED_TAG:
+                return NotImplemented          # a result like any other (what a binary special method hands back)
             return self.obj(v[1])
         if k == "i":
             return v[1]
@@ -179,6 +184,8 @@ class World:
         return self.excs[tag]
 
     def canon(self, v):
+        if v is NotImplemented:
+            return ["o", NOT_IMPLEMENTED_TAG]
         if isinstance(v, Obj):
             return ["o", v.tag]
         if isinstance(v, AwaitableInt):
